@@ -829,10 +829,14 @@ def run_chain(ctx, env, chain_state, nlinks, in_thread, foreign, full_sweep, lin
                 toks = ["s", kind, enc(nm), seq_token(job["seq"]), str(tid), str(os.getpid()), str(to_us(rec["time"])), str(start_us)]
             else:
                 toks = [kind, enc(nm), str(d), str(tid), str(os.getpid()), str(to_us(rec["time"])), str(start_us)]
-            Em = E if d >= len(E) else E[:d + 2]          # the model only needs the frames up to the selected one
-            for (gname, file, func, line) in Em:
-                toks += ["!" if gname is MISSING else "~" if gname is None else enc(gname) if isinstance(gname, str) else "~",
-                         enc(file), enc(func), str(line)]
+            if d >= len(E):
+                # beyond the stack the model only needs the NUMBER of frames (a model that wrongly selected one of them
+                # would still answer something else than the placeholder record)
+                toks += ["!", "-", "-", "0"] * min(len(E), 64)
+            else:
+                for (gname, file, func, line) in E[:d + 2]:   # the model only needs the frames up to the selected one
+                    toks += ["!" if gname is MISSING else "~" if gname is None else enc(gname) if isinstance(gname, str) else "~",
+                             enc(file), enc(func), str(line)]
             o = obs
             impl = "ok %s s:%s i:%d s:%s s:%s s:%s i:%d i:%d i:%d i:%d" % (
                 "n" if o["name"] is None else "s:" + enc(o["name"]), enc(o["function"]), o["line"], enc(o["module"]),
@@ -1259,7 +1263,7 @@ def run_identity_inproc(env, scenario):
 
 def stream_identity(ctx, env):
     rng = ctx.rng.fork("identity")
-    for i in range(ctx.n(40, 600)):
+    for i in range(ctx.n(40, 800)):
         sc = {"actor": rng.choice(["main", "threading", "threading", "_thread"]), "tname": rng.choice(ACTOR_NAMES + [None]),
               "ops": gen_ops(rng)}
         obs = run_identity_inproc(env, sc)
@@ -1716,7 +1720,7 @@ def run(ctx):
         stream_shared(ctx, env, corr)
         phase("shared")
         corr.flush(force=True, background=True)       # nothing forks from here to the end of the product sweeps
-        nchains = ctx.n(350, 5000) * boost
+        nchains = ctx.n(320, 7000) * boost
         for i in range(nchains):
             crng = ctx.rng.fork("chain%d" % i)
             state = crng.s
